@@ -459,6 +459,8 @@ func (t *Trie) updateRefCount(h util.Uint256, key []byte, index uint32) int32 {
 		var err error
 		data, err = getFromStore(key, t.mode, t.Store)
 		if err == nil {
+			// The slice can belong to a lower storage layer, it's modified below.
+			data = bytes.Clone(data)
 			cnt = int32(binary.LittleEndian.Uint32(data[len(data)-4:]))
 		}
 	}
@@ -529,7 +531,8 @@ func (t *Trie) getFromStore(h util.Uint256) (Node, error) {
 	}
 
 	if t.mode.RC() {
-		data = data[:len(data)-5]
+		// Limit the capacity: appending to node bytes must never write into the storage layer's buffer.
+		data = data[: len(data)-5 : len(data)-5]
 		node := t.refcount[h]
 		if node != nil {
 			node.bytes = data
